@@ -123,6 +123,96 @@ impl MainDevice {
 @*/
 }
 
+// ---- SubDevice::new from the register reads to the construction of the record (R6 fragment; the part in front - wait for INIT, EEPROM
+//      ownership, identity and name from the EEPROM: units subdevice_eeprom / eeprom_items - is cut off; `write!` into a heapless
+//      string is outside Verus' reach) ----
+/*@type file=src/register.rs name=SupportFlags derive="Clone, Copy, PartialEq, Eq, Debug" @*/
+/*@type file=src/register.rs name=DcSupport derive="Clone, Copy, PartialEq, Eq, Debug" @*/
+impl SupportFlags {
+/*@fn file=src/register.rs impl="impl SupportFlags" name=dc_support props=C09,C17
+    ensures r == (if !self.dc_supported { DcSupport::None } else if !self.enhanced_dc_sync { DcSupport::RefOnly } else if self.has_64bit_dc { DcSupport::Bits64 } else { DcSupport::Bits32 })
+@*/
+}
+/// DL status as far as it is used (link bits; layout: C19 wire_dl_status)
+pub struct DlStatus { pub link_port0: bool, pub link_port1: bool, pub link_port2: bool, pub link_port3: bool }
+/// Ports::new(active0, active3, active1, active2): EtherCAT port order 0 -> 3 -> 1 -> 2 (src/subdevice/ports.rs; Kani group ports)
+pub struct Ports { pub a0: bool, pub a3: bool, pub a1: bool, pub a2: bool }
+impl Ports {
+    #[verifier::external_body]
+    pub fn new(active0: bool, active3: bool, active1: bool, active2: bool) -> (r: Self)
+        ensures r == (Ports { a0: active0, a3: active3, a1: active1, a2: active2 })
+    { unimplemented!() }
+}
+pub struct Opaque { pub _p: u8 }
+pub struct SubDeviceConfig { pub _p: u8 }
+impl SubDeviceConfig {
+    #[verifier::external_body]
+    pub fn default() -> (r: Self) { unimplemented!() }
+}
+pub enum DcSync { Disabled, Other }
+/// AtomicU8 as far as its initial value goes
+pub struct AtomicU8 { pub init: u8 }
+impl AtomicU8 {
+    #[verifier::external_body]
+    pub fn new(v: u8) -> (r: Self) ensures r.init == v { unimplemented!() }
+}
+pub struct Slice0 { pub _p: u8 }
+/// the record SubDevice::new builds (field names of src/subdevice/mod.rs)
+pub struct SubDeviceRec {
+    pub configured_address: u16, pub alias_address: u16, pub config: SubDeviceConfig, pub index: u16, pub parent_index: Option<u16>,
+    pub propagation_delay: u32, pub dc_receive_time: u64, pub identity: Opaque, pub name: Opaque, pub dc_support: DcSupport, pub ports: Ports,
+    pub dc_sync: DcSync, pub mailbox_counter: AtomicU8, pub oversampling_config: Slice0,
+}
+
+/// "a checked read of register `reg` of station `addr` returned the value v"
+pub uninterp spec fn flags_read(addr: u16, reg: u16, v: SupportFlags) -> bool;
+pub uninterp spec fn u16_read(addr: u16, reg: u16, v: u16) -> bool;
+pub uninterp spec fn dl_read(addr: u16, reg: u16, v: DlStatus) -> bool;
+
+pub struct RdCmd { pub addr: u16, pub reg: u16 }
+impl RdCmd {
+    /// real body: WrappedRead::receive (unit wrapped): checked read of the register of exactly this station
+    #[verifier::external_body]
+    pub async fn receive_flags(self, maindevice: &MainDevice) -> (r: Result<SupportFlags, Error>)
+        ensures r is Ok ==> flags_read(self.addr, self.reg, r->Ok_0)
+    { unimplemented!() }
+    #[verifier::external_body]
+    pub async fn receive_u16(self, maindevice: &MainDevice) -> (r: Result<u16, Error>)
+        ensures r is Ok ==> u16_read(self.addr, self.reg, r->Ok_0)
+    { unimplemented!() }
+    #[verifier::external_body]
+    pub async fn receive_dl(self, maindevice: &MainDevice) -> (r: Result<DlStatus, Error>)
+        ensures r is Ok ==> dl_read(self.addr, self.reg, r->Ok_0)
+    { unimplemented!() }
+}
+pub struct SdRef { pub configured_address: u16 }
+impl SdRef {
+    /// SubDeviceRef::read (unit pdi_config): FPRD to this device's own station address
+    #[verifier::external_body]
+    pub fn read(&self, register: RegisterAddress) -> (r: RdCmd)
+        ensures r.addr == self.configured_address, r.reg == register as u16
+    { unimplemented!() }
+}
+
+/*@fragment file=src/subdevice/mod.rs impl="impl SubDevice" fn=new from="let flags = subdevice_ref" to="oversampling_config: &[], })" name=subdevice_new_tail qual="pub async" sig="maindevice: &MainDevice, subdevice_ref: &SdRef, index: u16, configured_address: u16, identity: Opaque, name: Opaque -> (r: Result<SubDeviceRec, Error>)" tail="" subst=".receive::<SupportFlags>(=>.receive_flags(@@.receive::<u16>(=>.receive_u16(@@.receive::<DlStatus>(=>.receive_dl(@@Ok(Self {=>Ok(SubDeviceRec {@@oversampling_config: &[]=>oversampling_config: Slice0 { _p: 0 }" props=C09,C15
+    requires subdevice_ref.configured_address == configured_address
+    ensures
+        // the record describes THE device at the configured address: ring position and address as given, alias = register 0x0012,
+        // DC capability from the feature flags at 0x0008, ports from the DL status at 0x0110 in EtherCAT order 0, 3, 1, 2 - all
+        // read from that station address and no other; no parent, no delay yet; the mailbox counter starts at 1 (0 is reserved)
+        r is Ok ==> ({
+            let d = r->Ok_0;
+            &&& d.configured_address == configured_address && d.index == index
+            &&& u16_read(configured_address, 0x0012, d.alias_address)
+            &&& exists|f: SupportFlags| #[trigger] flags_read(configured_address, 0x0008, f) && d.dc_support == (if !f.dc_supported { DcSupport::None } else if !f.enhanced_dc_sync { DcSupport::RefOnly } else if f.has_64bit_dc { DcSupport::Bits64 } else { DcSupport::Bits32 })
+            &&& exists|s: DlStatus| #[trigger] dl_read(configured_address, 0x0110, s) && d.ports == (Ports { a0: s.link_port0, a3: s.link_port3, a1: s.link_port1, a2: s.link_port2 })
+            &&& d.parent_index is None && d.propagation_delay == 0 && d.dc_receive_time == 0
+            &&& d.mailbox_counter.init == 1
+        }),
+@closure 0 "|dl_status: DlStatus| -> (cr: Ports)"
+    ensures cr == (Ports { a0: dl_status.link_port0, a3: dl_status.link_port3, a1: dl_status.link_port1, a2: dl_status.link_port2 })
+@*/
+
 /// the station addresses handed out are pairwise distinct (u16 ring positions)
 pub proof fn addresses_distinct(i: int, j: int)
     requires 0 <= i < 0x10000, 0 <= j < 0x10000, i != j
